@@ -1,1 +1,651 @@
-fn main(){}
+//! mon-trace: C20 — a thread's view of "tracing enabled" is its own override if set, else the
+//! latest global setting; other threads can change only the global setting.
+//!
+//! Mechanism 1 (turnstile): worker threads execute one operation when told; after every step the
+//! controller asks EVERY thread for is_enabled() and compares with the model (DESIGN A.5).  All
+//! schedules over {threads} x {8 ops} up to a bounded length are enumerated, plus seeded long ones.
+//! Mechanism 2 (free-running): threads issue seeded operations without coordination; per-thread
+//! invariants that must hold under every interleaving are asserted in place and the global flag's
+//! history (write / xor / read with real-time intervals from one ticket counter) is checked for
+//! linearizability by brute force on many short histories.  The same binary runs under Miri
+//! (-Zmiri-many-seeds) and ThreadSanitizer for data races.
+
+use refmodel::json::obj;
+use refmodel::report::{self, Collector};
+use refmodel::rng::{fnv, mix3, Rng};
+use std::sync::atomic::{AtomicU64, Ordering};
+use std::sync::mpsc::{channel, Receiver, Sender};
+use std::sync::{Arc, Barrier};
+use tracing_enabled as te;
+
+#[derive(Clone, Copy, Debug, PartialEq, Eq, Hash)]
+enum Op {
+    Enable,
+    Disable,
+    Toggle,
+    LocalEnable,
+    LocalDisable,
+    LocalToggle,
+    Take,
+    Restore,
+}
+const OPS: [Op; 8] = [Op::Enable, Op::Disable, Op::Toggle, Op::LocalEnable, Op::LocalDisable, Op::LocalToggle, Op::Take, Op::Restore];
+
+#[derive(Clone, Copy, Debug, PartialEq, Eq, Hash)]
+enum Local {
+    Inherit,
+    On,
+    Off,
+}
+
+#[derive(Clone, Debug, PartialEq, Eq, Hash)]
+struct Model {
+    global: bool,
+    local: Vec<Local>,
+    saved: Vec<Vec<Local>>,
+}
+
+impl Model {
+    fn new(t: usize) -> Model {
+        Model { global: true, local: vec![Local::Inherit; t], saved: vec![vec![]; t] }
+    }
+    fn apply(&mut self, t: usize, op: Op) {
+        let flip = |l: Local| match l {
+            Local::Inherit => Local::Inherit,
+            Local::On => Local::Off,
+            Local::Off => Local::On,
+        };
+        match op {
+            Op::Enable => {
+                self.local[t] = Local::On;
+                self.global = true;
+            }
+            Op::Disable => {
+                self.local[t] = Local::Off;
+                self.global = false;
+            }
+            Op::Toggle => {
+                self.local[t] = flip(self.local[t]);
+                self.global = !self.global;
+            }
+            Op::LocalEnable => self.local[t] = Local::On,
+            Op::LocalDisable => self.local[t] = Local::Off,
+            Op::LocalToggle => self.local[t] = flip(self.local[t]),
+            Op::Take => {
+                let l = self.local[t];
+                self.saved[t].push(l);
+                self.local[t] = Local::Inherit;
+            }
+            Op::Restore => {
+                if let Some(l) = self.saved[t].pop() {
+                    self.local[t] = l;
+                }
+            }
+        }
+    }
+    fn view(&self, t: usize) -> bool {
+        match self.local[t] {
+            Local::On => true,
+            Local::Off => false,
+            Local::Inherit => self.global,
+        }
+    }
+}
+
+fn do_op(op: Op, saved: &mut Vec<te::LocalEnableState>) {
+    match op {
+        Op::Enable => te::enable(),
+        Op::Disable => te::disable(),
+        Op::Toggle => te::toggle(),
+        Op::LocalEnable => te::local_enable(),
+        Op::LocalDisable => te::local_disable(),
+        Op::LocalToggle => te::local_toggle(),
+        Op::Take => saved.push(te::local_take()),
+        Op::Restore => {
+            if let Some(s) = saved.pop() {
+                te::restore(s)
+            }
+        }
+    }
+}
+
+enum Cmd {
+    Do(Op),
+    Query,
+    /// forget saved tokens and clear the override
+    Reset,
+    /// Reset, then make the global flag true again (enable(); local_take())
+    ResetGlobal,
+    Exit,
+}
+
+struct Worker {
+    tx: Sender<Cmd>,
+    rx: Receiver<bool>,
+    handle: Option<std::thread::JoinHandle<()>>,
+}
+
+fn spawn_worker() -> Worker {
+    let (tx, crx) = channel::<Cmd>();
+    let (ctx, rx) = channel::<bool>();
+    let handle = std::thread::spawn(move || {
+        let mut saved: Vec<te::LocalEnableState> = Vec::new();
+        while let Ok(cmd) = crx.recv() {
+            match cmd {
+                Cmd::Do(op) => {
+                    do_op(op, &mut saved);
+                    let _ = ctx.send(true);
+                }
+                Cmd::Query => {
+                    let _ = ctx.send(te::is_enabled());
+                }
+                Cmd::Reset => {
+                    saved.clear();
+                    drop(te::local_take());
+                    let _ = ctx.send(true);
+                }
+                Cmd::ResetGlobal => {
+                    saved.clear();
+                    te::enable();
+                    drop(te::local_take());
+                    let _ = ctx.send(true);
+                }
+                Cmd::Exit => break,
+            }
+        }
+    });
+    Worker { tx, rx, handle: Some(handle) }
+}
+
+impl Worker {
+    fn call(&self, c: Cmd) -> bool {
+        self.tx.send(c).expect("worker alive");
+        self.rx.recv().expect("worker reply")
+    }
+}
+
+struct Turnstile {
+    workers: Vec<Worker>,
+}
+
+impl Turnstile {
+    fn new(t: usize) -> Turnstile {
+        Turnstile { workers: (0..t).map(|_| spawn_worker()).collect() }
+    }
+    fn reset(&self) {
+        for w in &self.workers[1..] {
+            w.call(Cmd::Reset);
+        }
+        self.workers[0].call(Cmd::ResetGlobal);
+    }
+    fn views(&self) -> Vec<bool> {
+        self.workers.iter().map(|w| w.call(Cmd::Query)).collect()
+    }
+    /// Returns Err((step, thread, observed, expected)) at the first disagreement.
+    fn run(&self, sched: &[(usize, Op)], states: &mut std::collections::HashSet<(bool, Vec<Local>)>, trans: &mut std::collections::HashSet<((bool, Vec<Local>), usize, Op)>) -> Result<(), (usize, usize, bool, bool)> {
+        let t = self.workers.len();
+        let mut m = Model::new(t);
+        self.reset();
+        let v = self.views();
+        for (u, got) in v.iter().enumerate() {
+            if *got != m.view(u) {
+                return Err((0, u, *got, m.view(u)));
+            }
+        }
+        for (i, &(th, op)) in sched.iter().enumerate() {
+            let before = (m.global, m.local.clone());
+            trans.insert((before, th, op));
+            self.workers[th].call(Cmd::Do(op));
+            m.apply(th, op);
+            states.insert((m.global, m.local.clone()));
+            let v = self.views();
+            for (u, got) in v.iter().enumerate() {
+                if *got != m.view(u) {
+                    return Err((i + 1, u, *got, m.view(u)));
+                }
+            }
+        }
+        Ok(())
+    }
+}
+
+impl Drop for Turnstile {
+    fn drop(&mut self) {
+        for w in &mut self.workers {
+            let _ = w.tx.send(Cmd::Exit);
+            if let Some(h) = w.handle.take() {
+                let _ = h.join();
+            }
+        }
+    }
+}
+
+fn sched_text(s: &[(usize, Op)]) -> String {
+    s.iter().map(|(t, o)| format!("{o:?}@{t}")).collect::<Vec<_>>().join(" ")
+}
+
+fn report_turnstile(c: &mut Collector, sched: &[(usize, Op)], e: (usize, usize, bool, bool), threads: usize) {
+    let (step, u, got, want) = e;
+    let last = if step == 0 { "reset".to_string() } else { format!("{:?}@{}", sched[step - 1].1, sched[step - 1].0) };
+    let kind = if step > 0 && sched[step - 1].0 != u { "override-changed-by-other-thread" } else { "own-view-wrong" };
+    c.violation(
+        kind,
+        &if step == 0 { "reset".to_string() } else { format!("{:?}", sched[step - 1].1) },
+        format!(
+            "{threads} threads, schedule [{}]: after step {step} ({last}) thread {u} sees is_enabled() = {got}, model says {want}",
+            sched_text(&sched[..step.min(sched.len())])
+        ),
+        obj().set("threads", threads).set("schedule", sched[..step.min(sched.len())].iter().map(|(t, o)| format!("{o:?}@{t}")).collect::<Vec<_>>()),
+    );
+}
+
+fn turnstile_exhaustive(c: &mut Collector, threads: usize, len: usize, shard: u64, nshards: u64) {
+    let ts = Turnstile::new(threads);
+    let base = threads * OPS.len();
+    let total = (base as u64).pow(len as u32);
+    let mut states = std::collections::HashSet::new();
+    let mut trans = std::collections::HashSet::new();
+    let mut i = shard;
+    while i < total {
+        let mut x = i;
+        let mut sched = Vec::with_capacity(len);
+        for _ in 0..len {
+            let d = (x % base as u64) as usize;
+            x /= base as u64;
+            sched.push((d / OPS.len(), OPS[d % OPS.len()]));
+        }
+        c.eval();
+        c.count(&format!("turnstile-schedules:T{threads}-L{len}"));
+        if i % 4096 == shard {
+            c.journal(&format!("turnstile T{threads} [{}]", sched_text(&sched)));
+        }
+        c.distinct(fnv(format!("{threads}|{}", sched_text(&sched)).as_bytes()));
+        if let Err(e) = ts.run(&sched, &mut states, &mut trans) {
+            report_turnstile(c, &sched, e, threads);
+            break;
+        }
+        i += nshards;
+    }
+    c.max(&format!("max:model-states-visited-T{threads}"), states.len() as u64);
+    c.max(&format!("max:model-transitions-covered-T{threads}"), trans.len() as u64);
+    // the reachable (global, locals) graph: 2 * 3^T states, each with T*8 transitions
+    c.max(&format!("max:model-states-total-T{threads}"), 2 * 3u64.pow(threads as u32));
+    c.max(&format!("max:model-transitions-total-T{threads}"), 2 * 3u64.pow(threads as u32) * (threads * OPS.len()) as u64);
+}
+
+/// Cover the whole reachable model graph: BFS path to every (global, locals) state, then every
+/// (thread, op) transition out of it.
+fn turnstile_graph_cover(c: &mut Collector, threads: usize) {
+    use std::collections::{HashMap, VecDeque};
+    let ts = Turnstile::new(threads);
+    let start = Model::new(threads);
+    let key = |m: &Model| (m.global, m.local.clone());
+    let mut paths: HashMap<(bool, Vec<Local>), Vec<(usize, Op)>> = HashMap::new();
+    paths.insert(key(&start), vec![]);
+    let mut q = VecDeque::new();
+    q.push_back(start);
+    while let Some(m) = q.pop_front() {
+        let p = paths[&key(&m)].clone();
+        for t in 0..threads {
+            for op in OPS {
+                let mut n = m.clone();
+                n.apply(t, op);
+                n.saved = vec![vec![]; threads];
+                if !paths.contains_key(&key(&n)) {
+                    let mut np = p.clone();
+                    np.push((t, op));
+                    paths.insert(key(&n), np);
+                    q.push_back(n);
+                }
+            }
+        }
+    }
+    let mut states = std::collections::HashSet::new();
+    let mut trans = std::collections::HashSet::new();
+    'outer: for path in paths.values() {
+        for t in 0..threads {
+            for op in OPS {
+                // Restore with a token: precede by Take so that the token stack is non-empty
+                let mut sched = path.clone();
+                sched.push((t, op));
+                c.eval();
+                c.count(&format!("turnstile-graph-cover-schedules:T{threads}"));
+                c.distinct(fnv(format!("cover{threads}|{}", sched_text(&sched)).as_bytes()));
+                if let Err(e) = ts.run(&sched, &mut states, &mut trans) {
+                    report_turnstile(c, &sched, e, threads);
+                    break 'outer;
+                }
+            }
+        }
+    }
+    c.add(&format!("graph-states-covered-T{threads}"), states.len() as u64 + 0);
+    c.add(&format!("graph-transitions-covered-T{threads}"), trans.len() as u64);
+    c.add(&format!("graph-states-total-T{threads}"), paths.len() as u64);
+    c.add(&format!("graph-transitions-total-T{threads}"), (paths.len() * threads * OPS.len()) as u64);
+}
+
+fn turnstile_seeded(c: &mut Collector, seed: u64, shard: u64, n: u64, len: usize) {
+    for h in 0..n {
+        let mut rng = Rng::new(mix3(seed, shard, 0x7057 + h));
+        let threads = rng.range(2, 4) as usize;
+        let ts = Turnstile::new(threads);
+        let sched: Vec<(usize, Op)> = (0..len).map(|_| (rng.below(threads as u64) as usize, *rng.pick(&OPS))).collect();
+        c.eval();
+        c.count("turnstile-seeded-long-schedules");
+        c.journal(&format!("turnstile-seeded T{threads} [{}]", sched_text(&sched[..sched.len().min(40)])));
+        c.distinct(fnv(format!("{threads}|{}", sched_text(&sched)).as_bytes()));
+        let mut states = std::collections::HashSet::new();
+        let mut trans = std::collections::HashSet::new();
+        if let Err(e) = ts.run(&sched, &mut states, &mut trans) {
+            report_turnstile(c, &sched, e, threads);
+            break;
+        }
+        if c.want_sample() {
+            c.sample(obj().set("threads", threads).set("schedule_prefix", sched_text(&sched[..12.min(sched.len())])));
+        }
+    }
+}
+
+// ------------------------------------------------------------------------------ free-running
+
+#[derive(Clone, Copy, Debug)]
+enum GOp {
+    Write(bool),
+    Xor,
+    Read(bool),
+}
+
+#[derive(Clone, Copy, Debug)]
+struct Ev {
+    thread: usize,
+    op: GOp,
+    t0: u64,
+    t1: u64,
+}
+
+/// Brute-force linearizability of a register history with write / xor / read.
+fn linearizable(evs: &[Ev], init: bool) -> bool {
+    fn go(evs: &[Ev], done: &mut Vec<bool>, n_done: usize, val: bool) -> bool {
+        if n_done == evs.len() {
+            return true;
+        }
+        // candidates: not done, and no other pending op finished strictly before it started
+        for i in 0..evs.len() {
+            if done[i] {
+                continue;
+            }
+            let minimal = (0..evs.len()).all(|j| done[j] || j == i || !(evs[j].t1 < evs[i].t0));
+            if !minimal {
+                continue;
+            }
+            let next = match evs[i].op {
+                GOp::Write(b) => Some(b),
+                GOp::Xor => Some(!val),
+                GOp::Read(r) => {
+                    if r == val {
+                        Some(val)
+                    } else {
+                        None
+                    }
+                }
+            };
+            if let Some(nv) = next {
+                done[i] = true;
+                if go(evs, done, n_done + 1, nv) {
+                    done[i] = false;
+                    return true;
+                }
+                done[i] = false;
+            }
+        }
+        false
+    }
+    let mut done = vec![false; evs.len()];
+    go(evs, &mut done, 0, init)
+}
+
+/// One short free-running round: T threads, each `per` operations, started together.
+fn free_round(c: &mut Collector, rng: &mut Rng, threads: usize, per: usize, round: u64) -> bool {
+    // establish a known global value first (single-threaded): enable() then drop the override
+    te::enable();
+    drop(te::local_take());
+    let init = true;
+    let ticket = Arc::new(AtomicU64::new(1));
+    let barrier = Arc::new(Barrier::new(threads));
+    let mut plans: Vec<Vec<Op>> = Vec::new();
+    for _ in 0..threads {
+        plans.push((0..per).map(|_| *rng.pick(&[Op::Toggle, Op::Toggle, Op::Enable, Op::Disable, Op::LocalEnable, Op::LocalDisable, Op::LocalToggle, Op::Take, Op::Restore, Op::Toggle])).collect());
+    }
+    let mut handles = Vec::new();
+    for (t, plan) in plans.iter().cloned().enumerate() {
+        let ticket = ticket.clone();
+        let barrier = barrier.clone();
+        handles.push(std::thread::spawn(move || {
+            let mut evs: Vec<Ev> = Vec::new();
+            let mut errs: Vec<String> = Vec::new();
+            let mut saved: Vec<te::LocalEnableState> = Vec::new();
+            let mut local = Local::Inherit;
+            let mut msaved: Vec<Local> = Vec::new();
+            barrier.wait();
+            for (i, op) in plan.iter().enumerate() {
+                let t0 = ticket.fetch_add(1, Ordering::SeqCst);
+                do_op(*op, &mut saved);
+                let t1 = ticket.fetch_add(1, Ordering::SeqCst);
+                // thread-local model of the override
+                let flip = |l: Local| match l {
+                    Local::Inherit => Local::Inherit,
+                    Local::On => Local::Off,
+                    Local::Off => Local::On,
+                };
+                match op {
+                    Op::Enable => {
+                        local = Local::On;
+                        evs.push(Ev { thread: t, op: GOp::Write(true), t0, t1 });
+                    }
+                    Op::Disable => {
+                        local = Local::Off;
+                        evs.push(Ev { thread: t, op: GOp::Write(false), t0, t1 });
+                    }
+                    Op::Toggle => {
+                        local = flip(local);
+                        evs.push(Ev { thread: t, op: GOp::Xor, t0, t1 });
+                    }
+                    Op::LocalEnable => local = Local::On,
+                    Op::LocalDisable => local = Local::Off,
+                    Op::LocalToggle => local = flip(local),
+                    Op::Take => {
+                        msaved.push(local);
+                        local = Local::Inherit;
+                    }
+                    Op::Restore => {
+                        if let Some(l) = msaved.pop() {
+                            local = l;
+                        }
+                    }
+                }
+                // observation after every own operation
+                let r0 = ticket.fetch_add(1, Ordering::SeqCst);
+                let seen = te::is_enabled();
+                let r1 = ticket.fetch_add(1, Ordering::SeqCst);
+                match local {
+                    Local::On | Local::Off => {
+                        // isolation: with an override set, concurrent operations of other threads
+                        // must not be visible
+                        if seen != (local == Local::On) {
+                            errs.push(format!("thread {t} op #{i} {op:?}: own override is {local:?} but is_enabled() = {seen}"));
+                        }
+                    }
+                    Local::Inherit => evs.push(Ev { thread: t, op: GOp::Read(seen), t0: r0, t1: r1 }),
+                }
+            }
+            (evs, errs)
+        }));
+    }
+    let mut all: Vec<Ev> = Vec::new();
+    let mut ok = true;
+    for h in handles {
+        let (evs, errs) = h.join().expect("stress thread");
+        all.extend(evs);
+        for e in errs {
+            ok = false;
+            c.violation(
+                "override-changed-by-other-thread",
+                "free-running",
+                format!("round {round} plans {plans:?}: {e}"),
+                obj().set("round", round).set("plans", format!("{plans:?}")),
+            );
+        }
+    }
+    c.add("free-running-global-events", all.len() as u64);
+    if all.len() <= 14 {
+        c.count("linearizability-checks");
+        if !linearizable(&all, init) {
+            ok = false;
+            let mut sorted = all.clone();
+            sorted.sort_by_key(|e| e.t0);
+            c.violation(
+                "global-flag-not-linearizable",
+                "free-running",
+                format!("round {round}: history {sorted:?} of the global flag (initially {init}) has no linearization"),
+                obj().set("round", round).set("history", format!("{sorted:?}")),
+            );
+        }
+    } else {
+        c.count("linearizability-skipped-too-long");
+    }
+    // leave the process in the initial state
+    te::enable();
+    drop(te::local_take());
+    ok
+}
+
+struct Args {
+    cmd: String,
+    tier: String,
+    seed: u64,
+    shard: u64,
+    nshards: u64,
+    out: Option<String>,
+    journal: Option<String>,
+    small: bool,
+    rest: Vec<String>,
+    replay: Option<String>,
+}
+
+fn main() {
+    let mut a = Args { cmd: String::new(), tier: "quick".into(), seed: 1, shard: 0, nshards: 1, out: None, journal: None, small: false, rest: vec![], replay: None };
+    let mut it = std::env::args().skip(1);
+    a.cmd = it.next().unwrap_or_default();
+    while let Some(x) = it.next() {
+        match x.as_str() {
+            "--tier" => a.tier = it.next().unwrap(),
+            "--seed" => a.seed = it.next().unwrap().parse().unwrap(),
+            "--shard" => a.shard = it.next().unwrap().parse().unwrap(),
+            "--nshards" => a.nshards = it.next().unwrap().parse().unwrap(),
+            "--out" => a.out = it.next(),
+            "--journal" => a.journal = it.next(),
+            "--scale" => {
+                it.next();
+            }
+            "--small" => a.small = true,
+            "--replay" => a.replay = it.next(),
+            _ => a.rest.push(x),
+        }
+    }
+    if a.cmd == "merge-hashes" {
+        println!("{}", report::merge_hash_files(&a.rest));
+        return;
+    }
+    if a.cmd == "noop" {
+        return;
+    }
+    if a.cmd != "C20" {
+        eprintln!("unknown command {:?}", a.cmd);
+        std::process::exit(2);
+    }
+    let mut c = Collector::new("C20", a.journal.as_deref());
+    if let Some(rp) = &a.replay {
+        let text = std::fs::read_to_string(rp).expect("read replay");
+        let j = refmodel::json::J::parse(&text).expect("parse replay");
+        let r = j.get("replay").cloned().unwrap_or(refmodel::json::J::Null);
+        let threads = r.get("threads").and_then(|x| x.as_u64()).unwrap_or(2) as usize;
+        let sched: Vec<(usize, Op)> = r
+            .get("schedule")
+            .and_then(|x| x.as_arr())
+            .map(|v| {
+                v.iter()
+                    .filter_map(|s| {
+                        let s = s.as_str()?;
+                        let (o, t) = s.split_once('@')?;
+                        let op = OPS.iter().copied().find(|x| format!("{x:?}") == o)?;
+                        Some((t.parse().ok()?, op))
+                    })
+                    .collect()
+            })
+            .unwrap_or_default();
+        if sched.is_empty() {
+            println!("free-running finding (not deterministic); recorded detail:\n{}", j.get("detail").and_then(|d| d.as_str()).unwrap_or(""));
+            // re-run the stress for a while
+            let mut rng = Rng::new(1);
+            for r in 0..20000 {
+                if !free_round(&mut c, &mut rng, 2, 3, r) {
+                    break;
+                }
+            }
+        } else {
+            let ts = Turnstile::new(threads);
+            let mut s = Default::default();
+            let mut t = Default::default();
+            if let Err(e) = ts.run(&sched, &mut s, &mut t) {
+                report_turnstile(&mut c, &sched, e, threads);
+            }
+        }
+        for v in &c.violations {
+            println!("VIOLATION property=C20 replay={rp}\n  {}/{}: {}", v.kind, v.signature, v.detail);
+        }
+        println!("replay: {} violation(s)", c.violation_total);
+        std::process::exit(if c.violation_total > 0 { 1 } else { 0 });
+    }
+    let thorough = a.tier == "thorough";
+    if a.small {
+        // Miri / TSan workload: a few hundred turnstile schedules and free-running rounds
+        turnstile_exhaustive(&mut c, 2, 2, a.shard, a.nshards);
+        turnstile_seeded(&mut c, a.seed, a.shard, 2, 24);
+        let mut rng = Rng::new(mix3(a.seed, a.shard, 0xF4EE));
+        for r in 0..(if thorough { 60 } else { 25 }) {
+            if !free_round(&mut c, &mut rng, 2 + (r % 2) as usize, 3, r) {
+                break;
+            }
+        }
+    } else {
+        if a.shard == 0 {
+            turnstile_graph_cover(&mut c, 2);
+            turnstile_graph_cover(&mut c, 3);
+        }
+        turnstile_exhaustive(&mut c, 2, if thorough { 5 } else { 4 }, a.shard, a.nshards);
+        turnstile_exhaustive(&mut c, 3, if thorough { 4 } else { 3 }, a.shard, a.nshards);
+        turnstile_seeded(&mut c, a.seed, a.shard, if thorough { 400 } else { 40 }, 200);
+        let mut rng = Rng::new(mix3(a.seed, a.shard, 0xF4EE));
+        let rounds = if thorough { 400_000 } else { 30_000 };
+        for r in 0..rounds {
+            let threads = 2 + (r % 3) as usize;
+            let per = if threads == 2 { 3 } else { 2 };
+            c.eval();
+            if r % 512 == 0 {
+                c.journal(&format!("free-running round {r}"));
+            }
+            if !free_round(&mut c, &mut rng, threads, per, r) {
+                break;
+            }
+            c.count("free-running-rounds");
+        }
+    }
+    let text = c.to_json().dump();
+    match &a.out {
+        Some(p) => {
+            std::fs::write(p, &text).expect("write result");
+            c.write_hashes(&format!("{p}.hashes"));
+        }
+        None => println!("{text}"),
+    }
+}
